@@ -829,6 +829,19 @@ def apply_splices(body, splices, fired, what):
             pos_override = body.index(within)
         else:
             pos_override = None
+        if cnt == 0 and within is None and '//' not in anchor:
+            # the anchor text is not there literally: look for it modulo white space and comments (a re-wrapped or re-indented statement, a comment
+            # added inside it).  Exactly one such occurrence is rewritten to the anchor's own spelling (same tokens) and the splice proceeds.
+            toks = re.findall(r'[A-Za-z_][A-Za-z0-9_]*|\d+|\S', anchor)
+            if toks:
+                gap = r'(?:\s|//[^\n]*\n|/\*.*?\*/)*'
+                rx = re.compile(gap.join(re.escape(t) if not re.match(r'^\w+$', t) else r'\b' + re.escape(t) + r'\b' for t in toks), re.S)
+                hits = list(rx.finditer(body))
+                if len(hits) == 1 and SEP not in hits[0].group(0):
+                    m = hits[0]
+                    body = body[:m.start()] + _pad(anchor, m.group(0)) + body[m.end():]
+                    cnt = body.count(anchor)
+                    fired.append('R8 anchor %r matched modulo white space / comments' % anchor[:40])
         if cnt != 1:
             raise ExtractError('ANCHOR-LOST in %s: %r occurs %d times' % (what, anchor, cnt))
         ghost = txt.replace('\n', SEP)
